@@ -185,7 +185,7 @@ def read_known_findings(prop):
         words = rest.strip().split(" ")
         text = []
         for w in words:
-            if "=" in w and not text and w.split("=", 1)[0] in ("property", "id", "replay", "key", "commit"):
+            if "=" in w and w.split("=", 1)[0] in ("property", "id", "replay", "key", "commit"):
                 k, v = w.split("=", 1)
                 fields[k] = v
             else:
